@@ -186,7 +186,9 @@ macro_rules! projections {
                 use core::f64::consts::PI;
                 let fov = match it % 5 { 0 => rng.range(1e-2, 0.2), 1 => rng.range(PI - 0.2, PI - 1e-2), _ => rng.range(0.2, PI - 0.2) } as $S;
                 let aspect = 10f64.powf(rng.range(-2.0, 2.0)) as $S;
-                let near = 10f64.powf(rng.range(-3.0, 3.0)) as $S;
+                // "0 < near < far": every 5th frustum has a very small or very large near plane (the documented formulas must
+                // not form near * far before dividing)
+                let near = (if it % 5 == 4 { let e = (<$S>::MAX_10_EXP as f64) * 0.55; 10f64.powf(if rng.bool() { rng.range(3.0, e) } else { -rng.range(3.0, e) }) } else { 10f64.powf(rng.range(-3.0, 3.0)) }) as $S;
                 let ratio = match it % 4 { 0 => 1.0 + 10f64.powf(rng.range(-3.0, 0.0)), _ => 10f64.powf(rng.range(0.0, 6.0)).max(1.001) };
                 let far = (near as f64 * ratio) as $S;
                 if !((far as f64) > (near as f64) * 1.0009) { continue; }
@@ -219,7 +221,7 @@ macro_rules! projections {
                             }
                             let (ez, tolz) = match depth {
                                 Depth::ZeroOne => ((ff / (ff - nf)) * (1.0 - nf / dp), 8.0 * eps * ff / (ff - nf)),
-                                Depth::Gl => (((ff + nf) - 2.0 * ff * nf / dp) / (ff - nf), 8.0 * eps * (ff + nf) / (ff - nf) * 2.0),
+                                Depth::Gl => ((ff + nf) / (ff - nf) - 2.0 * (ff / (ff - nf)) * (nf / dp), 8.0 * eps * (ff + nf) / (ff - nf) * 2.0),
                                 Depth::InfForward => (1.0 - nf / dp, 4.0 * eps),
                                 Depth::InfReverse => (nf / dp, 4.0 * eps),
                             };
